@@ -21,7 +21,7 @@ Definition vcode (v : verdict) : Z :=
   | VParentBusy => 6 | VRootProt => 7 | VParentGone => 8 | VCapAncestor => 9 | VSiblingSum => 10
   | VCapChildren => 12 | VChildrenSum => 13 | VDelProtected => 15 | VDelMissing => 16
   | VDelAllocated => 17 | VDelChildren => 18 | VCycle => 19 | VSubtreeDepth => 20
-  | VNotInvoked => 21 | VFuel => 99
+  | VNotInvoked => 21 | VRootParent => 22 | VFuel => 99
   end.
 
 Definition dRl : dec rlist := let* kvs := dList (dPair dPos dZ) in ret (list_to_map kvs).
